@@ -427,6 +427,7 @@ func (r *c29Run) Main(s *sim.Sim) {
 			late.Close(ctx)
 		}
 	}
+	s.Teardown()
 	for _, c := range clients {
 		c.c.Close(ctx)
 	}
